@@ -62,8 +62,10 @@ def gen_plan(rng, tier):
             op.update({"op": "roundtrip", "via": rng.choice(["json", "json", "pickle", "dobs", "jackknife", "json_list", "json_corr"])})
         elif r < 0.80:
             op.update({"op": "cov_obs", "dim": rng.randint(1, 3), "seed": rng.getrandbits(30), "name": rng.choice(["covA", "sys_b", "Zc"])})
-        elif r < 0.88:
+        elif r < 0.85:
             op.update({"op": "malformed", "what": rng.choice(MALFORMED), "seed": rng.getrandbits(30)})
+        elif r < 0.88:
+            op.update({"op": "construct_fuzz", "seed": rng.getrandbits(30)})
         elif r < 0.94:
             op.update({"op": "interrupt", "f": rng.choice(["add", "mul", "div", "exp", "gm", "json"]), "frac": round(rng.random(), 4)})
         elif r < 0.97:
@@ -525,6 +527,99 @@ def step(ctx, op, pool, a, b, plan, pe):
         ctx.sig("malformed", what)
         if not raised:
             ctx.violation("c04.malformed_accepted", "construct", what, "malformed construction request (%s) was accepted" % what)
+        else:
+            ctx.probe("malformed_rejected")
+        return []
+    if kind == "construct_fuzz":
+        # arbitrary constructor arguments; an independent predicate (transcribed from the statement) says whether the
+        # request is well-formed: well-formed -> must construct a well-formed Obs, malformed -> must raise
+        rr = random.Random(kernel.H("fuzz", op["seed"]))
+        R = rr.choice([1, 1, 2, 3])
+        ens = rr.choice(["A", "B2"])
+        names = ["%s|r%d" % (ens, k) for k in rr.sample(range(12), R)]
+        lens = [rr.randint(5, 12) for _ in range(R)]
+        idls = []
+        for n_ in lens:
+            first = rr.randint(0, 20)
+            kind_ = rr.choice(["range", "range", "list", "array", "irregular"])
+            step = rr.choice([1, 1, 2, 5])
+            if kind_ == "range":
+                idls.append(range(first, first + n_ * step, step))
+            elif kind_ == "irregular":
+                idls.append(sorted(rr.sample(range(first, first + 4 * n_), n_)))
+            else:
+                lst = list(range(first, first + n_ * step, step))
+                idls.append(lst if kind_ == "list" else np.array(lst))
+        use_idl = rr.random() < 0.8
+        valid = True
+        mut = rr.choice(["none", "none", "neg_range", "reverse_list", "swap", "dup", "short_sample", "len_idl", "len_names", "dup_name", "other_ens", "nonstr", "short_chain",
+                         "neg_first", "bool_name"])
+        k = rr.randrange(R)
+        if mut == "neg_range" and use_idl:
+            n_ = lens[k]
+            idls[k] = range(30 + n_, 30, -1)
+            valid = False
+        elif mut == "reverse_list" and use_idl:
+            idls[k] = list(idls[k])[::-1] if rr.random() < 0.5 else np.array(list(idls[k])[::-1])
+            valid = False
+        elif mut == "swap" and use_idl:
+            l_ = list(idls[k])
+            j_ = rr.randrange(len(l_) - 1)
+            l_[j_], l_[j_ + 1] = l_[j_ + 1], l_[j_]
+            idls[k] = l_
+            valid = False
+        elif mut == "dup" and use_idl:
+            l_ = list(idls[k])
+            j_ = rr.randrange(len(l_) - 1)
+            l_[j_ + 1] = l_[j_]
+            idls[k] = l_ if rr.random() < 0.5 else np.array(l_)
+            valid = False
+        elif mut == "short_sample" and use_idl:
+            lens[k] = lens[k] - 1 if lens[k] > 5 else lens[k] + 1
+            valid = False
+        elif mut == "len_idl" and use_idl and R > 1:
+            idls = idls[:-1]
+            valid = False
+        elif mut == "len_names" and R > 1:
+            names = names[:-1]
+            valid = False
+        elif mut == "dup_name" and R > 1:
+            names[k] = names[(k + 1) % R]
+            valid = False
+        elif mut == "other_ens" and R > 1:
+            names[k] = rr.choice(["Zq|r1", ens + "x|r1", ens[:1] + "|r77" if len(ens) > 1 else "Q|r1"])
+            valid = False
+        elif mut == "nonstr":
+            names[k] = rr.choice([3, None, 2.5, ("a",)])
+            valid = False
+        elif mut == "short_chain":
+            lens[k] = rr.randint(0, 4)
+            if use_idl:
+                idls[k] = range(1, 1 + lens[k])
+            valid = False
+        elif mut == "neg_first" and use_idl and isinstance(idls[k], range):
+            idls[k] = range(-3, -3 + len(idls[k]) * idls[k].step, idls[k].step)      # negative configuration numbers are integers all the same
+        elif mut == "bool_name":
+            names[k] = True
+            valid = False
+        samples = [np.array([rr.gauss(0, 1) for _ in range(n_)]) for n_ in lens]
+        try:
+            o = pe.Obs(samples, names, idl=idls) if use_idl else pe.Obs(samples, names)
+            raised = None
+        except Exception as e:
+            raised = e
+        ctx.compared += 1
+        ctx.sig("construct_fuzz", mut if not valid else "valid", "idl" if use_idl else "noidl")
+        if valid:
+            if raised is not None:
+                ctx.violation("c04.no_result", "construct", "fuzz_valid", "well-formed construction request raised %s: %s" % (type(raised).__name__, str(raised)[:100]))
+                return []
+            check(ctx, o, "construct", "fuzz")
+            ctx.probe("fuzz_valid_constructed")
+            return [o]
+        if raised is None:
+            ctx.violation("c04.malformed_accepted", "construct", "fuzz_" + mut, "malformed construction request (%s) was accepted: names=%r idl=%r lengths=%r" % (
+                mut, names, [repr(i)[:40] for i in idls] if use_idl else None, lens))
         else:
             ctx.probe("malformed_rejected")
         return []
